@@ -14,11 +14,12 @@ attached (its parent pointer is None and the code at the pinned commit itself fa
 import random
 import zlib
 
-PLAIN, HISTORY, DETOUR, FILL = 0, 1, 2, 3
+PLAIN, HISTORY, DETOUR, FILL, GHOST = 0, 1, 2, 3, 4
+GHOST_NAMES = ("__ghost__", "__ghost_child__")
 
 
 def mode_of(m):
-    """deterministic choice of the way a spec is built: half plain, a sixth each history, detour and fill.
+    """deterministic choice of the way a spec is built: a third plain, a sixth each history, detour, fill and ghost.
     (iterative walk, bounded: deep chains are specs too)"""
     acc, stack, seen = [], [m["root"]], 0
     while stack and seen < 300:
@@ -37,7 +38,7 @@ def mode_of(m):
                 acc.append(n[0])
                 stack.extend((n[1], n[2]))
     h = zlib.crc32(repr(acc).encode("utf8", "surrogatepass"))
-    return (PLAIN, HISTORY, PLAIN, DETOUR, FILL, PLAIN)[h % 6], h
+    return (PLAIN, HISTORY, GHOST, DETOUR, FILL, PLAIN)[h % 6], h
 
 
 def _quiet(fn, *a):
@@ -146,4 +147,21 @@ def build_detour(m, h, plain):
     warm(fm)
     del t.get_relations()[-1]          # by position: list.remove would compare relations by value
     p.add_relation(Relation(p, [moved], old["min"], old["max"]))
+    return fm
+
+
+def build_ghost(m, h, plain):
+    """m with a two-feature subtree (GHOST_NAMES) hung under some feature, everything read once (lookups by name included),
+    and the subtree removed again: what was there before the removal is not part of the model"""
+    from flamapy.metamodels.fm_metamodel.models import Feature, Relation
+    rng = random.Random(h)
+    fm = plain(m)
+    host = rng.choice(_subtree(fm.root)[:50])
+    ghost = Feature(GHOST_NAMES[0])
+    ghost.add_relation(Relation(ghost, [Feature(GHOST_NAMES[1], parent=ghost)], 1, 1))
+    host.add_relation(Relation(host, [ghost], 0, 1))
+    warm(fm)
+    for n in GHOST_NAMES:
+        _quiet(fm.get_feature_by_name, n)
+    del host.get_relations()[-1]
     return fm
